@@ -75,22 +75,50 @@ Definition mismatch (x y : obj) : bool := negb (is_ptr x) || negb (is_ptr y) || 
 Definition same_word (x y : obj) : bool :=
   match x, y with Imm a, Imm b => a =? b | Vec [], Vec [] => true | _, _ => false end.
 
-(** the backwards scan `for (; len > 1; len--)' of sexp.c:1133-1141 over the reversed slot lists:
-    None = return SEXP_FALSE, Some len = the slot count still to compare *)
-Fixpoint tscan (ra rb : list obj) (len : nat) : option nat :=
+(** the backwards scan `for (; len > 1; len--) { a = p[len-1]; b = q[len-1]; if (a != b) {...} }' of
+    sexp.c:1133-1141: None = return SEXP_FALSE, Some len = the slot count still to compare *)
+Fixpoint tscan (sa sb : list obj) (len : nat) : option nat :=
   match len with
   | O => Some O
-  | S O => Some 1%nat
   | S len' =>
-      match ra, rb with
-      | x :: ra', y :: rb' =>
-          if same_word x y then tscan ra' rb' len'
+      match len' with
+      | O => Some 1%nat
+      | S _ =>
+          let x := nth len' sa (Imm 0) in
+          let y := nth len' sb (Imm 0) in
+          if same_word x y then tscan sa sb len'
           else if mismatch x y then None else Some len
-      | _, _ => Some len
       end
   end.
 
 Inductive eres : Type := EFalse | EBound (b : Z) | EFuel.
+
+(** `for (i=0; i<len-1; i++) { bound = sexp_equalp_bound(p[i], q[i], depth2, bound); if (!bound) return #f; }' *)
+Fixpoint slot_loop (eqf : obj -> obj -> Z -> Z -> eres) (depth2 : Z) (ps qs : list obj) (bd : Z) {struct ps} : eres :=
+  match ps, qs with
+  | p :: ps', q :: qs' =>
+      match eqf p q depth2 bd with
+      | EBound b' => slot_loop eqf depth2 ps' qs' b'
+      | r => r
+      end
+  | _, _ => EBound bd
+  end.
+
+(** the slot part of sexp_equalp_bound (sexp.c:1131-1150): scan, loop, then the tail iteration on
+    the last remaining slot at the SAME depth *)
+Definition slots_cmp (eqf : obj -> obj -> Z -> Z -> eres) (sa sb : list obj) (depth bound1 : Z) : eres :=
+  match sa with
+  | [] => EBound bound1
+  | _ :: _ =>
+      match tscan sa sb (length sa) with
+      | None => EFalse
+      | Some len =>
+          match slot_loop eqf (depth - 1) (firstn (len - 1) sa) (firstn (len - 1) sb) bound1 with
+          | EBound b' => eqf (nth (len - 1) sa (Imm 0)) (nth (len - 1) sb (Imm 0)) depth b'
+          | r => r
+          end
+      end
+  end.
 
 (** sexp_equalp_bound.  [fuel] bounds the nesting of calls (one unit per call or `goto loop'). *)
 Fixpoint equal_bound (fuel : nat) (a b : obj) (depth bound : Z) {struct fuel} : eres :=
@@ -106,32 +134,8 @@ Fixpoint equal_bound (fuel : nat) (a b : obj) (depth bound : Z) {struct fuel} : 
         if (l1 =? l2)%nat && list_eqb (str_data s1 o1 l1) (str_data s2 o2 l2) then EBound bound else EFalse
     | _, _ =>
       if (bound <? 0) || (depth <? 0) then EBound bound else
-      let depth2 := depth - 1 in
-      let bound1 := bound - 1 in
       if negb (raw_eq a b) then EFalse else
-      let sa := slots a in
-      let sb := slots b in
-      match sa with
-      | [] => EBound bound1
-      | _ :: _ =>
-          match tscan (rev sa) (rev sb) (length sa) with
-          | None => EFalse
-          | Some len =>
-              let fix loop (ps qs : list obj) (bd : Z) {struct ps} : eres :=
-                match ps, qs with
-                | p :: ps', q :: qs' =>
-                    match equal_bound f p q depth2 bd with
-                    | EBound b' => loop ps' qs' b'
-                    | r => r
-                    end
-                | _, _ => EBound bd
-                end in
-              match loop (firstn (len - 1) sa) (firstn (len - 1) sb) bound1 with
-              | EBound b' => equal_bound f (nth (len - 1) sa (Imm 0)) (nth (len - 1) sb (Imm 0)) depth b'
-              | r => r
-              end
-          end
-      end
+      slots_cmp (equal_bound f) (slots a) (slots b) depth (bound - 1)
     end
   end.
 
